@@ -148,6 +148,7 @@ func VerifC15ReplicaDrop() {
 	rt.Check(err == nil && len(w.exits) == 0, "replica applies the tombstone")
 	rt.Check(db.Pos() == ltx.Pos{TXID: 42, PostApplyChecksum: ltx.ChecksumFlag}, "replica position = (t+1, empty checksum)")
 	rt.Check(verifGone(db.DatabasePath()) && verifGone(db.JournalPath()) && verifGone(db.WALPath()), "replica files removed")
+	rt.Check(verifGone(db.SHMPath()), "replica shared-memory file removed")
 	rt.Check(db.PageN() == 0, "replica page count 0")
 	n := 0
 	for _, c := range w.inv.calls {
